@@ -29,7 +29,7 @@ OperandOK(h) == IsRaw(h) /\ ProjValid(Proj(h))
 
 Classes == {"add_inf_inf", "add_inf_p", "add_p_inf", "add_p_p", "add_p_negp", "add_generic", "add_inf_altrep",
             "z_not_one", "alias_recv", "alias_all", "mixed_p_p", "mixed_p_negp", "mixed_inf", "dbl_inf", "dbl_order2free",
-            "equal_true_diffrep", "equal_neg", "equal_same_y", "equal_inf_inf", "equal_p_inf", "yodd", "yeven", "inf_parity", "enc_inf", "chain_step",
+            "equal_true_diffrep", "equal_neg", "equal_same_y", "equal_limb_twin", "life_reject_cmp", "life_decode_id", "equal_inf_inf", "equal_p_inf", "yodd", "yeven", "inf_parity", "enc_inf", "chain_step",
             "split_extreme", "split_neg1", "split_neg2", "split_round_flip", "split_limb_carry", "split_edge",
             "mul_zero", "mul_inf", "mul_alias", "mul_edge_scalar", "mul_altrep", "glv_bound",
             "tbl_huge", "tbl_odd", "tbl_row", "bm_single_byte", "bm_zero_nibble", "bm_edge", "bm_priv", "bm_priv_after_derive", "bm_recycled",
@@ -37,7 +37,7 @@ Classes == {"add_inf_inf", "add_inf_p", "add_p_inf", "add_p_p", "add_p_negp", "a
             "dec_offcurve", "dec_nonresidue", "dec_hybrid", "dec_recv_uninit", "dec_recv_kept", "dec_fresh", "coords_ok", "coords_bad",
             "rec_ok_low", "rec_ok_high", "rec_overflow", "rec_bad_id", "rec_nonresidue",
             "msm_len0", "msm_len1", "msm_len2", "msm_len3plus", "msm_long", "msm_zero_scalar", "msm_inf_point", "msm_dup",
-            "msm_inverse", "msm_alias", "msm_mismatch", "msm_cancel", "dsm", "life_step", "life_reject", "life_inf", "life_ctrl"}
+            "msm_inverse", "msm_alias", "msm_mismatch", "msm_cancel", "dsm", "dsm_only_base", "dsm_only_var", "dsm_cancel", "dsm_window_meet", "mul_seq", "life_step", "life_reject", "life_inf", "life_ctrl"}
 
 (* ---- classification helpers ---- *)
 AddClass(a, b, ph, qh) ==
@@ -96,10 +96,15 @@ Verdict(ev) ==
          LET a == AffOf(ev.p)  b == AffOf(ev.q) IN
          << OperandOK(ev.p) /\ OperandOK(ev.q) /\ ev.out = FlagOf(PEq(a, b)),
             (IF PEq(a, b) /\ ev.p # ev.q /\ ~IsInf(a) THEN {"equal_true_diffrep"} ELSE {})
+            \cup (IF Has(ev, "twin") /\ ~PEq(a, b) THEN {"equal_limb_twin"} ELSE {})
             \cup (IF ~IsInf(a) /\ ~PEq(a, b) /\ PEq(a, PNeg(b)) THEN {"equal_neg"} ELSE {})
             \cup (IF ~IsInf(a) /\ ~IsInf(b) /\ ~PEq(a, b) /\ BigEq(a[2], b[2]) THEN {"equal_same_y"} ELSE {})
             \cup (IF IsInf(a) /\ IsInf(b) THEN {"equal_inf_inf"} ELSE {})
             \cup (IF IsInf(a) # IsInf(b) THEN {"equal_p_inf"} ELSE {}) >>
+    [] ev.ev = "pt.EqualEnc" ->      \* Equal on two decoded points, both ways round
+         LET a == DecPt(ev.p)  b == DecPt(ev.q) IN
+         << ev.out = FlagOf(PEq(a, b)) /\ ev.out_rev = ev.out /\ ev.self = 1,
+            IF ~PEq(a, b) /\ BigEq(a[2], b[2]) THEN {"equal_limb_twin"} ELSE {} >>
     [] ev.ev = "pt.IsId" -> << OperandOK(ev.p) /\ ev.out = FlagOf(IsInf(AffOf(ev.p))), {} >>
     [] ev.ev = "pt.IsYOdd" ->
          LET a == AffOf(ev.p) IN
@@ -154,7 +159,8 @@ Verdict(ev) ==
               /\ (Has(ev, "s_post") => ev.s_post = ev.s),                                   \* the scalar operand belongs to the caller
             (IF BigEq(s, 0) THEN {"mul_zero"} ELSE {}) \cup (IF IsInf(a) THEN {"mul_inf"} ELSE {})
             \cup (IF ev.alias = "v=p" THEN {"mul_alias"} ELSE {}) \cup (IF EdgeScalar(s) THEN {"mul_edge_scalar"} ELSE {})
-            \cup (IF ~IsInf(a) /\ ~BigEq(Proj(ev.p)[3], 1) THEN {"mul_altrep"} ELSE {}) >>
+            \cup (IF ~IsInf(a) /\ ~BigEq(Proj(ev.p)[3], 1) THEN {"mul_altrep"} ELSE {})
+            \cup (IF Has(ev, "seq") THEN {"mul_seq"} ELSE {}) >>
     [] ev.ev = "mul.TableEntry" ->
          << OperandOK(ev.p) /\ RawOK(ev.out, PMul(ev.i, AffOf(ev.p))), {} >>
     (* ---------------- C05 ---------------- *)
@@ -230,7 +236,11 @@ Verdict(ev) ==
     [] ev.ev = "dsm" ->
          LET a == AffOf(ev.p) IN
          << OperandOK(ev.p) /\ ResultOK(ev, DoubleMulBase(H(ev.u1), H(ev.u2), a)) /\ (ev.alias = "none" => ev.p_post = ev.p),
-            {"dsm"} \cup (IF ev.alias = "v=p" THEN {"mul_alias"} ELSE {}) >>
+            {"dsm"} \cup (IF ev.alias = "v=p" THEN {"mul_alias"} ELSE {})
+            \cup (IF (BigEq(H(ev.u2), 0) \/ IsInf(a)) /\ ~BigEq(H(ev.u1), 0) THEN {"dsm_only_base"} ELSE {})      \* u2*P vanishes, u1*G does not
+            \cup (IF BigEq(H(ev.u1), 0) /\ ~BigEq(H(ev.u2), 0) /\ ~IsInf(a) THEN {"dsm_only_var"} ELSE {})
+            \cup (IF Has(ev, "window") THEN {"dsm_window_meet"} ELSE {})
+            \cup (IF ~BigEq(H(ev.u1), 0) /\ ~BigEq(H(ev.u2), 0) /\ ~IsInf(a) /\ IsInf(DoubleMulBase(H(ev.u1), H(ev.u2), a)) THEN {"dsm_cancel"} ELSE {}) >>
 
 (* ---- stateful events ---- *)
 IsStateful(ev) == ev.ev \in {"tbl.Row", "tbl.Huge", "chain.Reset", "chain.Op", "pt.Life"}
@@ -261,7 +271,7 @@ LifeWant(acc, ev) ==
     [] ev.op = "bmul"      -> PMulG(s)
     [] ev.op = "dsm"       -> PAdd(PMulG(s), PMul(t, acc))
     [] ev.op = "dsm_from"  -> PAdd(PMulG(s), PMul(t, src))
-    [] ev.op \in {"setbytes", "setbytes_bad"} -> LET d == DecodeB(HexToBytes(ev.bytes)) IN IF d[1] = "ok" THEN d[2] ELSE acc
+    [] ev.op \in {"setbytes", "setbytes_bad", "setbytes_id"} -> LET d == DecodeB(HexToBytes(ev.bytes)) IN IF d[1] = "ok" THEN d[2] ELSE acc
     [] ev.op = "msm1"      -> PMul(s, acc)
     [] ev.op = "msmv"      -> PAdd(PMul(s, acc), PMul(t, src))
 LifeObsOK(ev, want) ==
@@ -269,6 +279,7 @@ LifeObsOK(ev, want) ==
   /\ ev.unc = u /\ ev.unc_again = u /\ ev.copy_unc = u /\ ev.other_unc = u
   /\ ev.cmp = cm /\ ev.copy_cmp = cm /\ ev.other_cmp = cm
   /\ ev.isid = FlagOf(IsInf(want)) /\ ev.eqself = 1 /\ ev.eqcopy = 1
+  /\ (Has(ev, "rawpt") => RawOK(ev.rawpt, want))                    \* what the object holds is a VALID representative (the identity: (0 : y : 0), y # 0)
   /\ (Has(ev, "src_kind") =>                                        \* what a constructor hands out is what it is documented to hand out
         /\ (ev.src_kind = "identity" => ev.src = "00")
         /\ (ev.src_kind = "generator" => ev.src = EncUncompressedH(GenPt))
@@ -291,6 +302,8 @@ StatefulVerdict(ev) ==
          LET want == LifeWant(DecPt(chain), ev) IN
          << LifeObsOK(ev, want),
             {"life_step"} \cup (IF ev.op = "setbytes_bad" THEN {"life_reject"} ELSE {}) \cup (IF IsInf(want) THEN {"life_inf"} ELSE {})
+            \cup (IF ev.op = "setbytes_bad" /\ HexLen(ev.bytes) = 33 /\ ~IsInf(DecPt(chain)) THEN {"life_reject_cmp"} ELSE {})
+            \cup (IF ev.op = "setbytes_id" /\ ~IsInf(DecPt(chain)) THEN {"life_decode_id"} ELSE {})
             \cup (IF ev.op \in {"cneg", "cneg_from", "csel", "csel2"} /\ ev.ctrl = 1 THEN {"life_ctrl"} ELSE {}),
             tblBase, tblAcc, EncUncompressedH(want) >>
     [] ev.ev = "chain.Reset" ->
